@@ -181,6 +181,26 @@ pub fn sink_steps(j: &J) -> Result<Vec<SinkStep>, String> {
 	Ok(v)
 }
 
+/// `write_all`: the one-call entry point (default block size, a random sync marker): the whole file
+pub fn op_write_all(session: &mut Session, cmd: &J) -> Result<J, String> {
+	let schema = match session.schema(&cmd["schema"]) {
+		Ok(s) => s,
+		Err(e) => return Ok(json!({"res": "schema_err", "msg": e})),
+	};
+	let codec = cmd["codec"].as_str().unwrap_or("null");
+	let level = cmd.get("level").and_then(|l| l.as_u64()).map(|l| l as u8);
+	let compression = compression_of(codec, level)?;
+	let ps: Vec<P> = cmd["pres_list"].as_array().ok_or("pres_list")?.iter().map(P::from_json).collect::<Result<_, _>>()?;
+	let r = catch_unwind(AssertUnwindSafe(|| {
+		serde_avro_fast::object_container_file_encoding::write_all(&schema.schema, compression, Vec::new(), ps.iter())
+	}));
+	Ok(match r {
+		Err(_) => json!({"res": "panic", "msg": crate::ops::LAST_PANIC.with(|c| c.borrow().clone())}),
+		Ok(Err(e)) => json!({"res": "err", "msg": e.to_string()}),
+		Ok(Ok(sink)) => json!({"res": "ok", "sink": bytes_json(&sink)}),
+	})
+}
+
 pub fn op_writer(session: &mut Session, cmd: &J) -> Result<J, String> {
 	let schema = match session.schema(&cmd["schema"]) {
 		Ok(s) => s,
@@ -211,7 +231,13 @@ pub fn op_writer(session: &mut Session, cmd: &J) -> Result<J, String> {
 	let mut out_steps: Vec<J> = Vec::new();
 	let build_res;
 	{
-		let builder = WriterBuilder::new(&mut config).compression(compression).approx_block_size(approx);
+		// "owned_config": WriterBuilder::with_owned_config (the writer owns its configuration) instead of borrowing one
+		let builder = if cmd.get("owned_config").and_then(|b| b.as_bool()).unwrap_or(false) {
+			WriterBuilder::with_owned_config(SerializerConfig::new(&schema.schema))
+		} else {
+			WriterBuilder::new(&mut config)
+		};
+		let builder = builder.compression(compression).approx_block_size(approx);
 		// "random_sync": the marker is left to the library (randomly generated, the default)
 		let builder = if cmd.get("random_sync").and_then(|b| b.as_bool()).unwrap_or(false) { builder } else { builder.sync_marker(sync) };
 		let built = catch_unwind(AssertUnwindSafe(|| {
@@ -433,6 +459,49 @@ pub fn op_reader(cmd: &J) -> Result<J, String> {
 	let kind = rd.get("kind").and_then(|k| k.as_str()).unwrap_or("slice");
 	let api = rd.get("api").and_then(|k| k.as_str()).unwrap_or("seed");
 	Ok(match kind {
+		"slice" if api == "borrowed" || api == "borrowed_iter" => {
+			// the entry points only a slice reader has: deserialize_next_borrowed::<T>() and deserialize_borrowed::<T>()
+			let mut reader = match Reader::from_slice(&file) {
+				Ok(r) => r,
+				Err(e) => return Ok(json!({"res": "ok", "init": "err", "msg": e.to_string(), "results": []})),
+			};
+			let schema_json = reader.schema().json().to_owned();
+			let graph: SchemaMut = schema_json.parse().map_err(|e| format!("reader accepted a schema that does not parse again: {e}"))?;
+			let mut ctx = Ctx::new(&graph);
+			ctx.hints = hints;
+			let mut results = Vec::new();
+			if api == "borrowed_iter" {
+				let items: Vec<Result<crate::ops::CapturedOwned, serde_avro_fast::de::DeError>> =
+					crate::ops::with_capture_ctx(&ctx, || reader.deserialize_borrowed::<crate::ops::CapturedOwned>().take(n_calls).collect());
+				let ended = items.len() < n_calls;
+				for r in items {
+					match r {
+						Ok(v) => results.push(json!({"r": "some", "value": v.0, "st": "unknown", "left": -1, "latch": -1})),
+						Err(e) => results.push(json!({"r": "err", "io": e.io_error().is_some(), "msg": e.to_string(), "st": "unknown", "left": -1, "latch": -1})),
+					}
+				}
+				if ended {
+					results.push(json!({"r": "none", "st": "unknown", "left": -1, "latch": -1}));
+				}
+			} else {
+				for _ in 0..n_calls {
+					let r = crate::ops::with_capture_ctx(&ctx, || reader.deserialize_next_borrowed::<crate::ops::CapturedOwned>()).map(|o| o.map(|c| c.0));
+					#[cfg(ten0_serde_avro_fast_verif)]
+					let (st, left, latch) = {
+						let (a, b, c) = reader.verif_state();
+						(a, b as i64, c as i64)
+					};
+					#[cfg(not(ten0_serde_avro_fast_verif))]
+					let (st, left, latch) = ("unknown", -1i64, -1i64);
+					match r {
+						Ok(Some(v)) => results.push(json!({"r": "some", "value": v, "st": st, "left": left, "latch": latch})),
+						Ok(None) => results.push(json!({"r": "none", "st": st, "left": left, "latch": latch})),
+						Err(e) => results.push(json!({"r": "err", "io": e.io_error().is_some(), "msg": e.to_string(), "st": st, "left": left, "latch": latch})),
+					}
+				}
+			}
+			json!({"res": "ok", "init": "ok", "meta": [], "schema_json": bytes_json(schema_json.as_bytes()), "results": results})
+		}
 		"slice" => {
 			let range = (file.as_ptr() as usize, file.as_ptr() as usize + file.len());
 			let r = Reader::new_and_metadata::<UserMeta>(serde_avro_fast::de::read::SliceRead::new(&file));
